@@ -702,6 +702,76 @@ fn check_assignment<L: LitName>(sc: &Scope, tier: Tier, idx: usize, acc: &mut Re
     }
 }
 
+
+// ------------------------------------------------------------------ wide family (up to 6 free variables)
+
+/// Fixed topologies over 3..6 free variables (node index < n: free variable, >= n: gate), checked
+/// with EVERY polarity assignment of the gate inputs, gate list orders and two numberings. Brings
+/// sharing, duplicate gates, constant cascades and five / six variable truth tables into scope.
+/// (name, free variables, gates as (a, b); usize::MAX = constant false)
+const C0: usize = usize::MAX;
+const WIDE: &[(&str, usize, &[(usize, usize)])] = &[
+    ("chain5", 5, &[(0, 1), (5, 2), (6, 3), (7, 4)]),
+    ("tree6", 6, &[(0, 1), (2, 3), (4, 5), (6, 7), (9, 8)]),
+    ("diamond", 3, &[(0, 1), (3, 2), (3, 2), (4, 5)]),
+    ("xor-and", 3, &[(0, 1), (0, 1), (3, 4), (5, 2)]),
+    ("duplicates", 4, &[(0, 1), (1, 0), (4, 2), (5, 2), (6, 7), (8, 3)]),
+    ("mux", 3, &[(0, 1), (0, 2), (3, 4)]),
+    ("constants", 4, &[(0, C0), (4, 1), (2, C0), (5, 6), (7, 3)]),
+    ("same-variable", 2, &[(0, 0), (2, 0), (3, 1), (4, 2)]),
+    ("fanout", 4, &[(0, 1), (4, 2), (4, 3), (5, 6), (7, 4)]),
+];
+
+fn wide_size(t: usize) -> usize {
+    1usize << (2 * WIDE[t].2.len())
+}
+
+fn check_wide<L: LitName>(t: usize, pol: usize, tier: Tier, acc: &mut Report) {
+    let (name, n, gates) = WIDE[t];
+    let k = gates.len();
+    let ni = (n + 1) / 2; // first half inputs, the rest latches
+    let code_of = |node: usize, neg: usize| if node == C0 { neg } else { 2 * (node + 1) + neg };
+    let gl: Vec<(usize, usize, usize)> = gates.iter().enumerate().map(|(j, &(a, b))| (2 * (n + j + 1), code_of(a, pol >> (2 * j) & 1), code_of(b, pol >> (2 * j + 1) & 1))).collect();
+    let top = 2 * (n + k);
+    let mid = 2 * (n + k / 2) + 1;
+    acc.states += 1;
+    for root_pol in 0..2usize {
+        let base = G {
+            max_var: n + k,
+            inputs: (1..=ni).map(|v| 2 * v).collect(),
+            latches: (ni..n).map(|v| (2 * (v + 1), if (v - ni) % 2 == 0 { top ^ root_pol } else { mid }, [None, Some(false), Some(true)][v % 3])).collect(),
+            gates: gl.clone(),
+            outputs: vec![top ^ root_pol],
+            bad: vec![mid],
+            constraints: vec![],
+            fairness: vec![],
+            justice: if root_pol == 1 { vec![vec![mid ^ 1, top]] } else { vec![] },
+        };
+        let orders: Vec<Vec<usize>> = {
+            let id: Vec<usize> = (0..k).collect();
+            let mut rev = id.clone();
+            rev.reverse();
+            let mut rot = id.clone();
+            rot.rotate_left(k / 2);
+            if tier == Tier::Thorough { vec![id, rev, rot] } else { vec![id, rev] }
+        };
+        for ord in &orders {
+            let mut g = base.clone();
+            g.gates = ord.iter().map(|&j| base.gates[j]).collect();
+            check_graph::<L>(&g, acc, name);
+            let nv = n + k;
+            let h = renumber_vars(&g, &|x| if x <= nv { 2 * (nv + 1 - x) } else { 2 * x + 1 });
+            if 2 * h.max_var + 1 <= L::MAX_CODE {
+                check_graph::<L>(&h, acc, name);
+            }
+            if tier == Tier::Thorough {
+                // every gate defined through its odd literal
+                check_graph::<L>(&flip_definitions(&g, (1u32 << k) - 1, false), acc, name);
+            }
+        }
+    }
+}
+
 /// Redefinition variants: some variable is defined twice (gate/gate, gate/input, gate/latch,
 /// gate/constant, latch/input, latch/latch, latch/constant, input/input), either polarity.
 fn redefinitions<L: LitName>(report: &mut Report) {
@@ -832,6 +902,8 @@ enum Unit {
     Redef(&'static str),
     /// (literal type, inputs, latches, gates, first assignment index, number of assignments)
     Block(&'static str, usize, usize, usize, usize, usize),
+    /// (literal type, topology, first polarity assignment, number of assignments)
+    Wide(&'static str, usize, usize, usize),
 }
 
 fn scopes(max_gates: usize) -> Vec<Scope> {
@@ -851,6 +923,18 @@ fn scopes(max_gates: usize) -> Vec<Scope> {
 
 fn units(tier: Tier) -> Vec<Unit> {
     let mut u = vec![Unit::Deep];
+    // the wide family first: it is small and must not fall behind a time cap
+    for lit in tier.pick(vec!["u32"], vec!["u32", "u8", "usize"]) {
+        for t in 0..WIDE.len() {
+            let n = wide_size(t);
+            let block = 64;
+            let mut s = 0;
+            while s < n {
+                u.push(Unit::Wide(lit, t, s, block.min(n - s)));
+                s += block;
+            }
+        }
+    }
     let plan: Vec<(&'static str, usize)> = tier.pick(vec![("u32", 2), ("u8", 1)], vec![("u32", 3), ("u8", 2), ("usize", 2)]);
     for (lit, max_gates) in plan {
         u.push(Unit::Redef(lit));
@@ -882,6 +966,15 @@ fn run_unit(u: &Unit, tier: Tier, rep: &mut Report) {
             "usize" => redefinitions::<usize>(rep),
             _ => redefinitions::<u32>(rep),
         },
+        Unit::Wide(lit, t, s, n) => {
+            for pol in *s..*s + *n {
+                match *lit {
+                    "u8" => check_wide::<u8>(*t, pol, tier, rep),
+                    "usize" => check_wide::<usize>(*t, pol, tier, rep),
+                    _ => check_wide::<u32>(*t, pol, tier, rep),
+                }
+            }
+        }
         Unit::Block(lit, i, l, g, s, n) => {
             let leaf = *g == 30;
             let sc = Scope { i: *i, l: *l, g: if leaf { 3 } else { *g }, leaf };
@@ -941,4 +1034,4 @@ pub fn replay(v: &Value) -> (bool, String) {
     (verdict.is_some(), text)
 }
 
-pub const RULE: &str = "every and-inverter graph of the scope (inputs + latches <= 2, gates <= 2 quick / 3 thorough; each gate input over every literal: constants, both polarities of every input, latch and gate incl. itself and later gates, and an undefined variable; variables also defined through their odd literal (every subset of the gates, optionally the inputs); roots: every literal as output alone, as the only entry of exactly one of latch next-state / bad / constraint / fairness / justice, and in all of them at once; gate list orders; variable numberings incl. reversal with gaps and all permutations for small scopes; redefinition variants; deep chains) x all 8 (trim, structural_hash, const_fold) combinations; truth tables over all assignments of the <= 2 free variables; non-trivial = well-formed graphs with at least one gate that were renumbered successfully";
+pub const RULE: &str = "every and-inverter graph of the scope (inputs + latches <= 2, gates <= 2 quick / 3 thorough; each gate input over every literal: constants, both polarities of every input, latch and gate incl. itself and later gates, and an undefined variable; variables also defined through their odd literal (every subset of the gates, optionally the inputs); roots: every literal as output alone, as the only entry of exactly one of latch next-state / bad / constraint / fairness / justice, and in all of them at once; gate list orders; variable numberings incl. reversal with gaps and all permutations for small scopes; redefinition variants; deep chains; the WIDE family: nine fixed topologies over 2..6 free variables and 3..6 gates (chain, tree, diamond, xor, duplicate gates, mux, constant cascade, same-variable gates, fan-out) with EVERY polarity assignment of the gate inputs, both root polarities, gate list orders and a reversed numbering with gaps) x all 8 (trim, structural_hash, const_fold) combinations; truth tables over all assignments of the free variables (<= 2 in the scopes, up to 6 in the wide family); non-trivial = well-formed graphs with at least one gate that were renumbered successfully";
